@@ -35,6 +35,24 @@
   * `transport_corruption_asShipped_counterexample`
                           — as shipped the wrapper is consumed unverified: a reply whose wrapper checksum byte
                             is altered is accepted, and an altered completion-code byte is RAISED
+  The response frame the library transmits for a request (`IpmbHeaderRsp.from_req_header` +
+  `IpmbHeaderRsp.encode` + `encode_ipmb_msg`: every regular reply of pyipmi/emulation.py; `FromReqVariant.intended`
+  = the source with fixes/C03-1.diff):
+  * `response_header_encode` — a response header object carrying the request's fields in their roles and netFn + 1
+                            encodes to the response frame of the figure (`Spec.Wire.mkReply`), any body
+  * `from_req_header_in_source`
+                          — `from_req_header` of the working tree (Gen/IpmbFilter.rspFromReq, AST) keeps requester
+                            and responder in their roles and sets the response network function
+  * `response_frame_is_figure`, `response_frame_carries`, `response_frame_passes_filter`
+                          — the frame built for (request, completion code ++ data) IS the figure's response to that
+                            request: the requester reads rq/rs addresses and LUNs, netFn + 1, sequence number,
+                            command and body from it, both checksums verify, and the reply filter of that request
+                            accepts it under every flag setting
+  * `response_frame_asShipped_echoes_request`, `response_frame_asShipped_rejected`,
+    `response_frame_asShipped_counterexample`
+                          — as shipped the roles are crossed twice and the netFn is copied: what goes out is the
+                            REQUEST header again in front of the response body; the library's own filter rejects
+                            every such frame (witness: Get Device ID 20 18 c8 81 04 01 → 20 18 c8 81 04 01 00 …)
 -/
 import PyIpmi.Lemmas.IpmbBridge
 namespace PyIpmi.Props.C03
@@ -196,6 +214,101 @@ theorem transport_corruption_asShipped_counterexample :
     cWrapped[17]? ≠ some 0 ∧
     classifyRx .asShipped none cReq {} (cWrapped.set 6 0xc0) = .err (.ccError 0xc0) := by decide
 
+/-! ### the response frame built for a request (`from_req_header` + `IpmbHeaderRsp.encode` + `encode_ipmb_msg`) -/
+
+/-- `IpmbHeaderRsp.encode` / `encode_ipmb_msg`: a response header object that carries responder and
+requester of request `h` in their roles, its sequence number and command, and the network function
+`h.netfn + 1` encodes to the response frame of the figure — requester address first — for ANY body. -/
+theorem response_header_encode (h : Hdr) (body : List Nat) (hr : h.InRange) (hn : h.netfn + 1 < 64) :
+    encodeIpmbMsgRsp { h with netfn := h.netfn + 1 } body = .ok (mkReply h body) :=
+  encodeIpmbMsgRsp_mkReply h body hr hn
+
+/-- `IpmbHeaderRsp.from_req_header` of the working tree (its assignments, read from the AST on every
+run) gives the header of the response to the request: responder and requester address and LUN in their
+roles, same sequence number and command, the request's network function plus one. -/
+theorem from_req_header_in_source (req : Hdr) (hn : req.netfn % 2 = 0) :
+    applyFromReq Gen.IpmbFilter.rspFromReq req = { req with netfn := req.netfn + 1 } := by
+  simp [applyFromReq, Gen.IpmbFilter.rspFromReq, hset, eval, hget, or1_even _ hn]
+
+/-- The frame the library builds to answer request `req` with `body` (completion code ++ data) is the
+response frame the figure prescribes for (request, body) — with the source's own `from_req_header`
+and with the `intended` table alike. -/
+theorem response_frame_is_figure (req : Hdr) (body : List Nat) (hr : req.InRange) (hn : req.netfn % 2 = 0) :
+    responseFrame Gen.IpmbFilter.rspFromReq req body = .ok (mkReply req body) ∧
+    responseFrame (fromReqTable .intended) req body = .ok (mkReply req body) := by
+  have h64 : req.netfn + 1 < 64 := by have := hr.2.2.1; omega
+  exact ⟨by rw [responseFrame, from_req_header_in_source req hn]; exact encodeIpmbMsgRsp_mkReply req body hr h64,
+    by rw [responseFrame, applyFromReq_intended req hn]; exact encodeIpmbMsgRsp_mkReply req body hr h64⟩
+
+/-- … so it carries exactly what it was asked to carry: the requester reads its own address and LUN, the
+responder's address and LUN, the request's network function plus one, sequence number, command and the
+body from it (`Spec.Wire.parseRsp` succeeds only when both checksums verify). -/
+theorem response_frame_carries (req : Hdr) (body f : List Nat) (hr : req.InRange) (hn : req.netfn % 2 = 0)
+    (hf : responseFrame Gen.IpmbFilter.rspFromReq req body = .ok f) :
+    parseRsp f = some ({ req with netfn := req.netfn + 1 }, body) ∧ hdrOk f ∧ payOk f := by
+  rw [(response_frame_is_figure req body hr hn).1] at hf
+  injection hf with hf; subst hf
+  exact ⟨parseRsp_mkReply req body hr, mkReply_hdrOk req body, mkReply_payOk req body⟩
+
+/-- … and the reply filter of that very request accepts it, whatever optional checks are enabled. -/
+theorem response_frame_passes_filter (req : Hdr) (body f : List Nat) (fl : Flags) (hr : req.InRange)
+    (hn : req.netfn % 2 = 0) (hf : responseFrame Gen.IpmbFilter.rspFromReq req body = .ok f) :
+    rxFilter req f fl = .ok true := by
+  rw [(response_frame_is_figure req body hr hn).1] at hf
+  injection hf with hf; subst hf
+  exact intact_reply_accepted req body fl hr hn
+
+/-- As shipped `from_req_header` crosses requester and responder although `IpmbHeaderRsp.encode` already
+puts the requester first, and copies the network function: the frame transmitted as the "response" is the
+request header again, in front of the response body. -/
+theorem response_frame_asShipped_echoes_request (req : Hdr) (body : List Nat) (hr : req.InRange) :
+    responseFrame (fromReqTable .asShipped) req body = encodeIpmbMsg req body := by
+  rw [responseFrame_asShipped req body hr, encodeIpmbMsg_frameOf req body hr]
+
+/-- … which the library's own reply filter rejects for EVERY request (the network function is the
+request's, not the request's plus one), under every flag setting. -/
+theorem response_frame_asShipped_rejected (req : Hdr) (body f : List Nat) (fl : Flags) (hr : req.InRange)
+    (hn : req.netfn % 2 = 0) (hf : responseFrame (fromReqTable .asShipped) req body = .ok f) : rxFilter req f fl = .ok false := by
+  rw [responseFrame_asShipped req body hr] at hf
+  injection hf with hf; subst hf
+  have h6 : 6 ≤ (frameOf req body).length := by rw [frameOf_length]; omega
+  obtain ⟨b, hb⟩ := rxFilter_ok req (frameOf req body) fl h6
+  cases b with
+  | false => exact hb
+  | true =>
+    exfalso
+    have hall : (Gen.IpmbFilter.rxChecks.filter (active fl)).all
+        (checkHolds req (decodeRspFields (frameOf req body)) (frameOf req body)) = true := by
+      unfold rxFilter at hb
+      rw [rspNeeds_eq] at hb
+      have h0 : ¬ (frameOf req body).length = 0 := by omega
+      have h1 : ¬ (frameOf req body).length < 6 := by omega
+      simp only [h0, h1, if_false] at hb
+      injection hb
+    rw [List.all_eq_true] at hall
+    have c := hall ⟨none, (.e (.rsp .netfn)), (.e (.bor (.self .netfn) (.const 1)))⟩
+      (by simp [Gen.IpmbFilter.rxChecks, active])
+    obtain ⟨h1, h2, h3, h4, h5, h6', h7⟩ := hr
+    have e1 : (req.netfn * 4 + req.rsLun) / 4 = req.netfn := by omega
+    simp [checkHolds, evalTerm, eval, decodeRspFields_eq, hget, frameOf, hdrBytes, byteAt, e1] at c
+    rw [or1_even _ hn] at c
+    omega
+
+def sReq : Hdr := { rsSa := 0x20, rsLun := 0, netfn := 6, rqSa := 0x81, rqLun := 0, seq := 1, cmd := 1 }
+
+/-- Get Device ID `20 18 c8 81 04 01 7a` (rqSA 81h → rsSA 20h, sequence number 1), answered with
+completion code 00h and two data bytes: as shipped `20 18 c8 81 04 01 00 aa bb 15` goes out — checksums
+valid, every addressing field wrong — instead of `81 1c 63 20 04 01 00 aa bb 76`, and `rx_filter` of
+the request says no. -/
+theorem response_frame_asShipped_counterexample :
+    responseFrame (fromReqTable .asShipped) sReq [0, 0xaa, 0xbb] =
+      .ok [0x20, 0x18, 0xc8, 0x81, 0x04, 0x01, 0x00, 0xaa, 0xbb, 0x15] ∧
+    mkReply sReq [0, 0xaa, 0xbb] = [0x81, 0x1c, 0x63, 0x20, 0x04, 0x01, 0x00, 0xaa, 0xbb, 0x76] ∧
+    sum8 [0x20, 0x18, 0xc8] = 0 ∧ sum8 [0x81, 0x04, 0x01, 0x00, 0xaa, 0xbb, 0x15] = 0 ∧
+    rxFilter sReq [0x20, 0x18, 0xc8, 0x81, 0x04, 0x01, 0x00, 0xaa, 0xbb, 0x15] {} = .ok false ∧
+    parseRsp [0x20, 0x18, 0xc8, 0x81, 0x04, 0x01, 0x00, 0xaa, 0xbb, 0x15] ≠
+      some ({ sReq with netfn := 7 }, [0, 0xaa, 0xbb]) := by decide
+
 /-! ### non-vacuity: concrete objects satisfying the hypotheses -/
 
 def demoReq : Hdr := { rsSa := 0x72, rsLun := 1, netfn := 6, rqSa := 0x20, rqLun := 0, seq := 2, cmd := 1 }
@@ -218,5 +331,16 @@ example : rxFilter demoReq (mkReply { demoReq with seq := 3 } [0]) {} = .ok fals
 example : classifyRx .repaired (some (bridgeHdr 5)) cReq {} cWrapped = .hit [0, 0x12, 0x34] ∧
     classifyRx .repaired (some (bridgeHdr 5)) cReq {} (cWrapped.set 17 0) = .noise ∧
     classifyRx .repaired (some (bridgeHdr 5)) cReq {} (cWrapped.set 6 0xc0) = .noise := by decide
+
+/-- the intended `from_req_header` on the witness of the counter-example: the figure's response, accepted -/
+example : responseFrame (fromReqTable .intended) sReq [0, 0xaa, 0xbb] =
+      .ok [0x81, 0x1c, 0x63, 0x20, 0x04, 0x01, 0x00, 0xaa, 0xbb, 0x76] ∧
+    rxFilter sReq [0x81, 0x1c, 0x63, 0x20, 0x04, 0x01, 0x00, 0xaa, 0xbb, 0x76] {} = .ok true ∧
+    sReq.InRange ∧ sReq.netfn % 2 = 0 := by decide
+/-- LUNs, a late sequence number and the highest request network function survive the trip -/
+example : responseFrame Gen.IpmbFilter.rspFromReq
+      { rsSa := 0x72, rsLun := 1, netfn := 62, rqSa := 0x20, rqLun := 2, seq := 63, cmd := 0xff } [0xc1] =
+    .ok (mkReply { rsSa := 0x72, rsLun := 1, netfn := 62, rqSa := 0x20, rqLun := 2, seq := 63, cmd := 0xff } [0xc1]) := by
+  decide
 
 end PyIpmi.Props.C03
